@@ -129,8 +129,11 @@ class Com():
             })
 
         def add_str(s):
-            assert len(lines) > 0
-            lines[-1]['str'] += ';'
+            # Append to the last line of the command (not to a verification
+            # condition following it).
+            com_lines = [line for line in lines if line['ty'] == 'com']
+            assert len(com_lines) > 0
+            com_lines[-1]['str'] += ';'
 
         def rec(cmd):
             nonlocal indent
